@@ -236,8 +236,12 @@ static econf_err pr_key_file(struct econf_file *key_file)
         size_t key_count = 0;
 
         econf_error = econf_getKeys(key_file, group, &key_count, &keys);
-        if (econf_error == ECONF_NOKEY && group == NULL)
-            continue; /* all keys belong to a group */
+        if (econf_error == ECONF_NOKEY) {
+            /* all keys belong to a group OR a group without any key */
+            if (group != NULL)
+                printf("%s\n\n", group);
+            continue;
+        }
         if (econf_error) {
 	    print_error(econf_error);
             econf_free(keys);
